@@ -592,6 +592,49 @@ func (r *runner) makeBound(d resDesc) *bound {
 			return tup(tup(append([]interface{}{}, seen...)...))
 		}
 		b.close = func() { recvSide.Close() }
+	case "tcp_local", "relaxed_local":
+		// the archetype under test is the receiver; the harness commits batches as the sender
+		addr := freeAddr()
+		mk := resources.NewTCPMailboxes
+		if d.Kind == "relaxed_local" {
+			mk = resources.NewRelaxedMailboxes
+		}
+		opts := []resources.MailboxesOption{resources.WithMailboxesReadTimeout(150 * time.Millisecond),
+			resources.WithMailboxesWriteTimeout(500 * time.Millisecond), resources.WithMailboxesDialTimeout(500 * time.Millisecond)}
+		recvSide := mk(func(tla.Value) (resources.MailboxKind, string) { return resources.MailboxesLocal, addr }, opts...)
+		sendSide := mk(func(tla.Value) (resources.MailboxKind, string) { return resources.MailboxesRemote, addr }, opts...)
+		if _, err := recvSide.Index(r.scratch, tla.MakeNumber(0)); err != nil { // starts listening
+			panic(err)
+		}
+		recvSide.Abort(r.scratch)
+		b.res = recvSide
+		b.snap = func(keys []interface{}) interface{} {
+			out := []interface{}{}
+			for range keys {
+				out = append(out, nil)
+			}
+			return tup(out...)
+		}
+		b.env = func(ev []interface{}) {
+			rem, err := sendSide.Index(r.scratch, tla.MakeNumber(0))
+			if err != nil {
+				panic(err)
+			}
+			for _, v := range ev[2].([]interface{}) {
+				if err := rem.WriteValue(r.scratch, toTLA(v)); err != nil {
+					panic("sender could not write: " + err.Error())
+				}
+			}
+			if ch := sendSide.PreCommit(r.scratch); ch != nil {
+				if err := <-ch; err != nil {
+					panic("sender precommit: " + err.Error())
+				}
+			}
+			if ch := sendSide.Commit(r.scratch); ch != nil {
+				<-ch
+			}
+		}
+		b.close = func() { sendSide.Close() }
 	default:
 		panic("unknown resource kind " + d.Kind)
 	}
